@@ -13,10 +13,14 @@ package discovery
 //@   ensures [tag]    forall j int :: 0 <= j && j < 32 ==> result[1+j] == tag[j]
 //@   ensures [peers]  forall i int :: 0 <= i && i < len(peers) ==>
 //@                      result[33+2*i] == byte(peers[i]) && result[34+2*i] == byte(peers[i] >> 8)
+//@   ensures [value]  forall i int :: 0 <= i && i < len(peers) ==>
+//@                      uint16(result[33+2*i]) + 256*uint16(result[34+2*i]) == peers[i]
 //@   loop 0: invariant [offset] offset == 33 + 2*(rangeindex+1)
 //@   loop 0: invariant [head]   buff[0] == byte(msgType) && forall j int :: 0 <= j && j < 32 ==> buff[1+j] == tag[j]
 //@   loop 0: invariant [done]   forall k int :: 0 <= k && k <= rangeindex ==>
 //@                      buff[33+2*k] == byte(peers[k]) && buff[34+2*k] == byte(peers[k] >> 8)
+//@   loop 0: invariant [value]  forall k int :: 0 <= k && k <= rangeindex ==>
+//@                      uint16(buff[33+2*k]) + 256*uint16(buff[34+2*k]) == peers[k]
 //@
 //@ func decodeTagAndMembershipList
 //@   props C13 C10
